@@ -27,7 +27,9 @@ def make_X(rng, n, d, mode):
         X = rng.randn(n, d)
         X[rng.rand(n) < 0.5] += 50.0
     elif mode == "bow":
-        base = (rng.rand(max(2, n // 3), d) < 0.3).astype(float)
+        # (two non-dyadic levels: norms and dot products of the rows are not exactly representable, so a distance computed
+        # as |x|^2 + |y|^2 - 2xy between identical rows is rounding noise instead of an exact 0)
+        base = (rng.rand(max(2, n // 4), d) < 0.5).astype(float) * 7.3 + 0.1
         X = base[rng.randint(len(base), size=n)]
     elif mode == "scaled":
         X = rng.randn(n, d) * (10.0 ** rng.randint(-3, 4, size=d))
